@@ -78,6 +78,57 @@ def zhex(z):
     return ("-%x" % -z) if z < 0 else ("%x" % z)
 
 
+FLUSH_CASE = r"""
+(define-syntax verif-fcase
+  (syntax-rules ()
+    ((_ n expr) (begin (verif-case n expr) (flush-output-port (current-output-port))))))
+"""
+
+
+def run_cases(d, exprs, prelude_extra="", imports="", timeout=900, extra_env=None, chunk=1500):
+    """like vlib.scm.run_cases, but every answer is flushed before the next case starts (a sanitizer abort loses
+    buffered output, which would blame the wrong case), and a dead process is restarted after the guilty case"""
+    res = [None] * len(exprs)
+    os.makedirs(B.SCRATCH, exist_ok=True)
+    todo = [(lo, min(len(exprs), lo + chunk)) for lo in range(0, len(exprs), chunk)]
+    while todo:
+        lo, hi = todo.pop(0)
+        body = [scm.PRELUDE, imports, FLUSH_CASE, prelude_extra]
+        body += ["(verif-fcase %d %s)" % (i, exprs[i]) for i in range(lo, hi)]
+        body.append('(write-string "DONE")(newline)')
+        path = os.path.join(B.SCRATCH, "c01_cases_%d.scm" % os.getpid())
+        open(path, "w").write("\n".join(body))
+        try:
+            r = B.run_chibi(d, [path], timeout=timeout, extra_env=extra_env)
+            out, rc, err = r.stdout, r.returncode, r.stderr
+        except subprocess.TimeoutExpired as e:
+            out = e.stdout.decode() if isinstance(e.stdout, bytes) else (e.stdout or "")
+            rc, err = "TIMEOUT", ""
+        done, last = False, lo - 1
+        for line in out.split("\n"):
+            if line == "DONE":
+                done = True
+                continue
+            sp = line.find(" ")
+            if sp > 0 and line[:sp].isdigit() and lo <= int(line[:sp]) < hi:
+                last = int(line[:sp])
+                res[last] = line[sp + 1:]
+            elif line and last >= lo and res[last] is not None and not done:
+                res[last] += "\n" + line
+        if not done and last + 1 < hi:
+            bad = last + 1
+            res[bad] = "TIMEOUT" if rc == "TIMEOUT" else "CRASH rc=%s %s" % (rc, _asan_summary(err))
+            if bad + 1 < hi:
+                todo.insert(0, (bad + 1, hi))
+    return res
+
+
+def _asan_summary(err):
+    err = err or ""
+    keep = [l.strip() for l in err.split("\n") if "ERROR: AddressSanitizer" in l or l.startswith("SUMMARY") or " of size " in l or "#0 " in l or "#1 " in l]
+    return " | ".join(keep[:6]) if keep else err[-300:].replace("\n", " | ")
+
+
 def fix(z):
     return dict(expr=str(z), abs="f" + zhex(z), cls="fix", z=z)
 
@@ -276,7 +327,7 @@ def run(ctx):
     mo_run = ctx.run_model(exe, reqs_run)
     mo_spec = ctx.run_model(exe, reqs_spec)
     t0 = time.time()
-    io = scm.run_cases(d, exprs, imports=IMPORTS, prelude_extra=PRELUDE, timeout=900, chunk=1500, extra_env=ASAN_ENV)
+    io = run_cases(d, exprs, imports=IMPORTS, prelude_extra=PRELUDE, timeout=900, chunk=1500, extra_env=ASAN_ENV)
     ph["opcode_stream"] = round(time.time() - t0, 1)
     j = 0
     last_err = None
@@ -574,7 +625,7 @@ def stack_stream(ctx, exe, d, rng, consts):
         ctx.count(1, key=("ensure",) + q)
         if not ok:
             ctx.broken("stack:gen_ensure_stack", "regenerated sexp_ensure_stack(MAX=%d,len=%d,top=%d,n=%d) answers %s" % (q + (o,)))
-    io = scm.run_cases(d, exprs, prelude_extra=pre, timeout=900, extra_env=ASAN_ENV)
+    io = run_cases(d, exprs, prelude_extra=pre, timeout=900, extra_env=ASAN_ENV)
     for e, x, r in zip(exprs, exp, io):
         ctx.count(1, key=e)
         rep = replay_cmd(d, "(begin %s %s)" % (pre, e))
